@@ -627,7 +627,8 @@ func main() {
 	r.Assume = []string{
 		"XYZ.ECmult / ECmultGen / Field.Sqrt / Number.mod_inv are abstracted in the model as the mathematical operations on Base/Secp (limb and Jacobian arithmetic is property C08); the abstraction is exercised by every oracle comparison here",
 		"SHA-256 is a parameter of the model and of the theorems (instantiated with the Lean SHA-256 in the oracle)",
-		"the reference group Base/Secp is the group the specs are written in; commutativity/associativity of Secp.add are not proved here (the specs are written with the operand order the code uses)",
+		"the reference group Base/Secp is the group the specs are written in; its group law is PROVED (Props.C03.reference_curve_group_law: Secp.add = addition of Mathlib's WeierstrassCurve.Affine.Point over ZMod p, p and n prime by Pratt certificates)",
+		"Sign does not refuse R = 0 mod n (needs a nonce k with x(kG) = n: a discrete logarithm); sign_verify / sign_canonical / recover_sign carry the hypothesis R != 0",
 		"crypto/rand inside EcdsaSign (random-nonce mode) is not controlled: the nonce is derived from the output",
 	}
 	if r.Replay != "" {
@@ -699,6 +700,11 @@ func main() {
 	add("signrfc", false, r.N(100, 1500), 50)
 	add("signrnd", false, r.N(100, 1500), 50)
 	add("ssign", false, r.N(100, 1500), 50)
+	// sweeps (sweep.go): long incremental runs of valid inputs + their minimal invalid sibling, for defects
+	// that need 10^4..10^5 inputs to show (un-normalised field elements read by IsOdd/Equals)
+	add("sweep-tweak", false, r.N(120000, 1500000), 4000)
+	add("sweep-ecdsa", false, r.N(40000, 500000), 2000)
+	add("sweep-schnorr", false, r.N(60000, 800000), 3000)
 	for i := 0; i < 6 && i < len(cases); i++ {
 		r.Sample(cases[(i*7)%len(cases)])
 	}
@@ -732,6 +738,10 @@ func main() {
 					continue
 				}
 				ge := tables.with(wk.sh.rng)
+				if strings.HasPrefix(wk.sh.kind, "sweep-") {
+					x.sweep(wk.sh.kind, wk.sh.n, wk.sh.rng, ge)
+					continue
+				}
 				for i := 0; i < wk.sh.n; i++ {
 					x.runCase(ge.make(wk.sh.kind, wk.sh.oracle), o)
 				}
@@ -750,7 +760,7 @@ func main() {
 	r.Extra["corpus_cases"] = ncorpus
 	r.Extra["oracle_workers"] = workers
 	r.Finish(
-		"corpus (defect witnesses, boundary scalars, BIP340 CSV rows, RFC6979/HMAC and signature vectors from the repo's tests) then a structured generator: valid triples from random keys in all key formats, then one mutation per case (bit flips, r/s in {0,n,n+k,p,2^256-1,s+n,n-s}, 33-byte and padded integers, DER container damage, x>=p, y>=p, non-residue x, off-curve, hybrid parity, wrong lengths, infinity results, own-arithmetic forgeries); distinct = distinct (op, arguments)",
+		"corpus (defect witnesses, boundary scalars, BIP340 CSV rows, RFC6979/HMAC and signature vectors from the repo's tests) then a structured generator: valid triples from random keys in all key formats, then one mutation per case (bit flips, r/s in {0,n,n+k,p,2^256-1,s+n,n-s}, 33-byte and padded integers, DER container damage, x>=p, y>=p, non-residue x, off-curve, hybrid parity, wrong lengths, infinity results, own-arithmetic forgeries, algebraic triples with small s offered as s+n < 2^256, signing inputs solved for short R / short S with the top bit set); then incremental sweeps (sweep.go: valid tweak / ECDSA / BIP340 inputs advanced by one point addition per case, each with its minimal invalid sibling; counted as evaluations with an empty distinct key); distinct = distinct (op, arguments)",
 		"real gocoin functions vs an independent math/big reference (property predicate) on every case; a subset also through the Lean model and Lean spec (oracle_c03): real=model is the tie, model=spec is what the iff-theorems state")
 }
 
